@@ -115,7 +115,10 @@ func runC03(c *mon.Ctx) {
 	n := c.N(22400, 560000)
 	for i := 0; i < n; i++ {
 		alg := keys.AlgNames[i%7]
-		k := keys.New(alg, g.R.Intn(3))
+		ki := g.R.Intn(3)
+		k := keys.New(alg, ki)
+		// another key of the same algorithm, for the candidate-key trials below
+		kOther := keys.New(alg, (ki+1)%3)
 		if i%21 < 3 {
 			// an ECDSA algorithm with another curve than the customary one
 			k = keys.NewCross(alg, []int{384, 521, 256}[i%3])
@@ -130,6 +133,21 @@ func runC03(c *mon.Ctx) {
 			continue
 		}
 		a, x := vc.a, vc.x
+		if i%50 == 49 && (a.P == 2 || a.NoMeas == nil) {
+			// a larger, still valid set (seeded fault C03-v: limits in the decode mode that
+			// the encoder does not know about): 17 .. 300 software components
+			nc := []int{17, 24, 33, 65, 129, 300}[(i/50)%6]
+			a.HasComps, a.NoMeas, a.Comps = true, nil, nil
+			for j := 0; j < nc; j++ {
+				a.Comps = append(a.Comps, g.ValidComp())
+			}
+			if bx, err := obs.Build(a); err == nil {
+				x, vc.sig = bx, fmt.Sprintf("%s|comps=%d", vc.sig, nc)
+				c.Count("many-component-sets")
+			} else {
+				continue
+			}
+		}
 		sig := alg + "|" + vc.sig
 		c.Sig(sig)
 		det := func() map[string]any {
@@ -217,6 +235,21 @@ func runC03(c *mon.Ctx) {
 			if err := dv.Verify(k.Pub); err != nil {
 				bad("decoded-verify-failed", "Verify on the decoded Evidence failed under the signer's key: "+err.Error(), d)
 				return
+			}
+			// a relying party trying candidate keys (seeded fault C03-u: the verifier of
+			// the first Verify call is kept): wrong key of the same algorithm, then the
+			// matching one, on the decoded and on the signing Evidence
+			for ei, e := range []*psatoken.Evidence{dv, st.ev} {
+				which := []string{"decoded", "signing"}[ei]
+				if e.Verify(kOther.Pub) == nil {
+					bad("other-key-verified/"+which, "Verify succeeded under another key of the same algorithm on the "+which+" Evidence", d)
+					return
+				}
+				if err := e.Verify(k.Pub); err != nil {
+					bad("matching-key-refused-after-wrong-key/"+which, "Verify with the matching key fails on the "+which+" Evidence after another candidate key was tried: "+err.Error(), d)
+					return
+				}
+				c.Count("candidate-key-trials")
 			}
 			present, prot, pay, sg, herr := hookEnvelope(dv)
 			if herr != nil || !present || !bytes.Equal(pay, st.env.Payload) || !bytes.Equal(sg, st.env.Signature) || !bytes.Equal(prot, st.env.ProtectedBS) {
